@@ -37,6 +37,9 @@ EXPLANATION += ' R5 is the same semantic guard matrix (126 evaluations), replaci
 TECHNIQUE += '; evaluated guard matrix rows for ECP and ghost centres; CFG reachability of PrepareDumpError sources'
 EXPLANATION += ' Added: (R7) variants a writer does not implement and a missing selector key are rejected by the pre-flight (evaluated); (R8) the required attributes checked are those of the operation that writes the file, also through helpers, and dump_many requires at least what dump_one requires; (R9) PrepareDumpError is raised only before the output file is opened; R5 has rows for effective core charges and for ghost centres (core charge 0, atomic number kept): Molekel must refuse both because its reader derives the electron count from the atomic numbers.'
 # --- end metadata batch 7
+# --- metadata added for batch 8
+EXPLANATION += ' Added: (R10) the selection decision table (an explicit format is final: no fall-back to the file name), before anything is written. R5 has rows for ghost centres and for shells listed out of atom order.'
+# --- end metadata batch 8
 TRUSTED = [
     "CPython ast parser", "open(name, 'w') is the only truncation point (POSIX)",
     "with-statement closes the file on every exit", "whitelisted total externals do not raise",
